@@ -38,7 +38,7 @@ TIERS = {
     "quick": {"worlds": 2000, "wall": 520, "shrink_budget": 60, "sweep": 1 << 16,
               "required_probes": ["c02.ops_done", "c02.repeat_after_pickle", "c02.repeat_after_deepcopy",
                                   "c02.small_cache_world", "c02.sweep_done", "c02.fresh_compared", "c02.nd_ops_done",
-                                  "c02.nd_sweep_done", "c02.nd_repeat_after_copy"]},
+                                  "c02.nd_sweep_done", "c02.nd_repeat_after_copy", "c02.cost_reset_between_draws"]},
     "thorough": {"worlds": 6000, "wall": 2900, "shrink_budget": 150, "sweep": 1 << 19,
                  "required_probes": ["c02.ops_done", "c02.repeat_after_pickle", "c02.repeat_after_deepcopy",
                                      "c02.small_cache_world", "c02.sweep_done", "c02.fresh_compared"]},
@@ -46,6 +46,34 @@ TIERS = {
 
 
 def generate(seed, tier="quick"):
+    sc = _generate(seed, tier)
+    # history: the sampler's COST counter is reset between draws (what both engines do to a process before every pass or
+    # level); that is book-keeping and must leave the map uniform -> state alone (own stream: the other draws are unchanged)
+    rr = sub_rng(seed, "c02.reset_cost")
+    pr = sc["process"]
+    if pr["kind"] == "copula" and pr["method"] == "inversion" and len(pr["margins"]) == 2 and rr.random() < 0.4:
+        # the library's default grid of a copula model (bounds from the default truncation probability): long, UNBALANCED
+        # axes - the state enumeration of the inversion sampler then skips indices that fall outside the grid
+        pr["grid"] = {"kind": "trunc", "h": rr.choice([0.25, 0.2]), "tp": 0.99999}
+        # building such a chain costs seconds: at most three newly constructed samplers per world
+        keep, seen_fresh = [], 0
+        for op in sc["ops"]:
+            seen_fresh += op[0] == "fresh"
+            if op[0] != "fresh" or seen_fresh <= 3:
+                keep.append(op)
+        sc["ops"] = keep
+        if rr.random() < 0.6:
+            pr["margins"] = rr.choice([["cgmy11_a", "cgmy11_b"], ["cgmy11_b", "cgmy11_a"], ["cgmy11_a", "hem"]])
+            if pr["copula"]["kind"] == "independent":
+                pr["copula"] = {"kind": "clayton", "theta": 0.7, "eta": 0.3}
+    unbalanced = pr["kind"] == "copula" and any(m in pr["margins"] for m in ("cgmy11_a", "cgmy11_b"))
+    if rr.random() < 0.5 or unbalanced:
+        for _ in range(rr.choice([4, 8, 16] if unbalanced else [1, 2, 4, 8, 16])):
+            sc["ops"].insert(rr.randrange(1, len(sc["ops"]) + 1), ["reset_cost", rr.randrange(5)])
+    return sc
+
+
+def _generate(seed, tier="quick"):
     r = sub_rng(seed, "c02.scenario")
     if r.random() < 0.25:
         # several dimensions: samplers of a Levy-copula chain (scenarios.c02nd)
@@ -321,6 +349,12 @@ def execute(wd, sc):
                                  "lineage": lineage[ci]})
                     else:
                         table[u] = (st, ci)
+            elif kind == "reset_cost":
+                ci = op[1] % len(samplers)
+                if hasattr(samplers[ci], "reset_sampling_cost"):
+                    samplers[ci].reset_sampling_cost()
+                    wd.probes["c02.cost_reset_between_draws"] += 1
+                    wd.faults["history.cost_reset"] += 1
             elif kind == "pickle":
                 ci = op[1] % len(samplers)
                 samplers.append(simpool._loads(simpool._dumps(samplers[ci])))
